@@ -243,6 +243,19 @@ func init() {
 				}
 				scs = append(scs, sc)
 			}
+			// (6) legal requests of (nearly) the largest size, each followed by an ordinary one on the same connection
+			for _, dl := range []int{65535, 65520, 65515, 65514} {
+				sc := &scenario{name: fmt.Sprintf("largest-request-%d", dl), fails: map[int]bool{}}
+				for k := 0; k < 3; k++ {
+					c := healthy(k)
+					if k == 1 {
+						c.reqs = []rscp.Message{{Tag: 0x01000001, DataType: rscp.ByteArray, Value: make([]byte, dl-7)}}
+						c.user = frameReply(replyFor(g.nonceRequest(k)[:1], k))
+					}
+					sc.calls = append(sc.calls, c)
+				}
+				scs = append(scs, sc)
+			}
 			// (5) a reply damaged in transit once (one bit of the frame's time stamp, checksum untouched): the call fails
 			// with a checksum error, its request reached the device once, the next call works on a new connection
 			for j := 0; j < 2; j++ {
@@ -300,7 +313,8 @@ func init() {
 							addVerdict(&prop, "FAIL C05 a refused request reached the wire: "+trunc(r, 120))
 						}
 						if !sc.fails[k] {
-							if want := "ok " + msgsString(replyFor(c.reqs, k)); !strings.HasPrefix(r, want+" @") {
+							want := "ok " + strings.TrimPrefix(c.user.model, "F ") // the reply scripted for this very call
+							if !strings.HasPrefix(r, want+" @") {
 								addVerdict(&prop, fmt.Sprintf("FAIL C08 no recovery: call %d of scenario %s against a healthy peer gives %s", k, sc.name, trunc(r, 120)))
 								if strings.Contains(r, "undecodable") || strings.HasPrefix(r, "err invalid") {
 									addVerdict(&prop, "FAIL C06 client and peer no longer understand each other on the connection: "+trunc(r, 100))
